@@ -1,1 +1,241 @@
-(* placeholder, filled below *)
+(* C13 — findSubstring (prefix function + matcher of pattern/substring.go) returns the end of the
+   leftmost occurrence. *)
+From Coq Require Import List Bool Arith NArith ZArith Lia.
+Import ListNotations.
+From C13 Require Import Model.
+
+Lemma app_suffix_cmp {A} (u1 a u2 b : list A) :
+  u1 ++ a = u2 ++ b -> length b <= length a -> exists w, a = w ++ b.
+Proof.
+  revert u2. induction u1 as [|x u1 IH]; intros u2 E L; simpl in E.
+  - now exists u2.
+  - destruct u2 as [|y u2]; simpl in E.
+    + exfalso. apply (f_equal (@length A)) in E. simpl in E. rewrite app_length in E. lia.
+    + inversion E. eapply IH; eauto.
+Qed.
+
+Lemma firstn_S_nth (p : bytes) k : k < length p -> firstn (S k) p = firstn k p ++ [nth k p 0%N].
+Proof.
+  revert k. induction p as [|c p IH]; intros k L; simpl in L; [lia|].
+  destruct k; simpl; [reflexivity|]. f_equal. apply IH. lia.
+Qed.
+
+Section Kmp.
+  Variable p : bytes.
+
+  (* the k-prefix of the pattern is a suffix of s *)
+  Definition IsSuf (k : nat) (s : bytes) : Prop := k <= length p /\ exists u, s = u ++ firstn k p.
+  (* k is the longest such *)
+  Definition Lps (k : nat) (s : bytes) : Prop := IsSuf k s /\ forall k', IsSuf k' s -> k' <= k.
+  (* the first n table entries are right: entry j = longest proper border of the (j+1)-prefix *)
+  Definition TableOK (pf : list nat) (n : nat) : Prop :=
+    forall j, j < n -> Lps (nth j pf 0) (firstn j (tl p)).
+
+  Lemma IsSuf_len k s : IsSuf k s -> k <= length s.
+  Proof.
+    intros (L & u & ->). rewrite app_length, firstn_length_le by exact L. lia.
+  Qed.
+
+  Lemma IsSuf_0 s : IsSuf 0 s.
+  Proof. split; [lia|]. exists s. simpl. now rewrite app_nil_r. Qed.
+
+  Lemma firstn_tl cur : 1 <= cur -> cur <= length p ->
+    firstn cur p = hd 0%N p :: firstn (cur - 1) (tl p).
+  Proof.
+    intros H1 H2. destruct p as [|c q]; simpl in *; [lia|].
+    destruct cur; [lia|]. simpl. now rewrite Nat.sub_0_r.
+  Qed.
+
+  (* an m-border of the cur-prefix that is a suffix of s *)
+  Lemma IsSuf_trans m cur s : 1 <= cur -> cur <= length p ->
+    IsSuf m (firstn (cur - 1) (tl p)) -> IsSuf cur s -> IsSuf m s.
+  Proof.
+    intros H1 H2 (Lm & u' & E') (_ & u & ->). split; [exact Lm|].
+    rewrite (firstn_tl cur H1 H2), E'.
+    exists (u ++ hd 0%N p :: u'). now rewrite <- app_assoc.
+  Qed.
+
+  Lemma IsSuf_shorter k cur s : k < cur -> IsSuf k s -> IsSuf cur s ->
+    IsSuf k (firstn (cur - 1) (tl p)).
+  Proof.
+    intros Lt (Lk & u2 & E2) (Lc & u1 & E1). split; [exact Lk|].
+    rewrite E1 in E2. apply app_suffix_cmp in E2.
+    2:{ rewrite !firstn_length_le by lia. lia. }
+    destruct E2 as (w & E). rewrite (firstn_tl cur) in E by lia.
+    destruct w as [|x w]; simpl in E.
+    - exfalso. apply (f_equal (@length N)) in E. simpl in E.
+      rewrite !firstn_length_le in E; try lia.
+      destruct p; simpl in *; lia.
+    - inversion E. now exists w.
+  Qed.
+
+  Lemma fallback_spec fuel : forall pf cur b s,
+    cur < fuel -> cur < length p -> TableOK pf cur -> IsSuf cur s ->
+    exists c, fallback fuel pf p cur b = Some c /\ c <= cur /\ IsSuf c s /\
+              (c = 0 \/ nth c p 0%N = b) /\
+              forall k, k <= cur -> IsSuf k s -> nth k p 0%N = b -> k <= c.
+  Proof.
+    induction fuel as [|fuel IH]; intros pf cur b s Hf Hp Ht Hs; [lia|].
+    simpl. destruct (0 <? cur) eqn:Epos; simpl.
+    2:{ apply Nat.ltb_ge in Epos. exists cur. split; [reflexivity|]. split; [lia|].
+        split; [exact Hs|]. split; [left; lia|]. intros; assumption. }
+    apply Nat.ltb_lt in Epos.
+    destruct (N.eqb_spec b (nth cur p 0%N)) as [Eb|Nb]; simpl.
+    { exists cur. split; [reflexivity|]. split; [lia|]. split; [exact Hs|].
+      split; [right; now symmetry|]. intros; assumption. }
+    set (m := nth (cur - 1) pf 0).
+    assert (Hm : Lps m (firstn (cur - 1) (tl p))) by (apply Ht; lia).
+    destruct Hm as (Hm1 & Hm2).
+    assert (Lm : m <= cur - 1).
+    { apply IsSuf_len in Hm1. rewrite firstn_length in Hm1. lia. }
+    destruct (IH pf m b s) as (c & Ec & Lc & Sc & Dc & Mc); try lia.
+    - intros j Hj. apply Ht. lia.
+    - eapply IsSuf_trans; eauto; lia.
+    - exists c. split; [exact Ec|]. split; [lia|]. split; [exact Sc|]. split; [exact Dc|].
+      intros k Hk Sk Ek. apply Mc; auto.
+      assert (k <> cur) by (intros ->; congruence).
+      apply Hm2. apply IsSuf_shorter with (s := s); auto. lia.
+  Qed.
+
+  Lemma IsSuf_snoc k s b : IsSuf (S k) (s ++ [b]) <-> S k <= length p /\ IsSuf k s /\ nth k p 0%N = b.
+  Proof.
+    split.
+    - intros (L & u & E). rewrite firstn_S_nth in E by lia.
+      rewrite app_assoc in E. apply app_inj_tail in E as [E1 E2].
+      split; [exact L|]. split; [|now symmetry]. split; [lia|]. now exists u.
+    - intros (L & (_ & u & ->) & <-). split; [exact L|]. exists u.
+      rewrite firstn_S_nth by lia. now rewrite app_assoc.
+  Qed.
+
+  Lemma kstep_spec pf cur b s :
+    cur < length p -> TableOK pf cur -> Lps cur s ->
+    exists c, kstep pf p cur b = Some c /\ Lps c (s ++ [b]).
+  Proof.
+    intros Hp Ht (Hs & Hmax). unfold kstep.
+    destruct (fallback_spec (S cur) pf cur b s) as (c0 & E & Lc & Sc & Dc & Mc); auto.
+    rewrite E. eexists. split; [reflexivity|].
+    destruct (N.eqb_spec b (nth c0 p 0%N)) as [Eb|Nb].
+    - split.
+      + apply IsSuf_snoc. split; [lia|]. split; [exact Sc | now symmetry].
+      + intros k' Hk'. destruct k' as [|k]; [lia|].
+        apply IsSuf_snoc in Hk' as (L & Sk & Ek).
+        specialize (Hmax k Sk). specialize (Mc k Hmax Sk Ek). lia.
+    - assert (c0 = 0) by (destruct Dc; [assumption | congruence]). subst c0.
+      split; [apply IsSuf_0|].
+      intros k' Hk'. destruct k' as [|k]; [lia|]. exfalso.
+      apply IsSuf_snoc in Hk' as (L & Sk & Ek).
+      specialize (Hmax k Sk). specialize (Mc k Hmax Sk Ek).
+      assert (k = 0) by lia. subst k. congruence.
+  Qed.
+
+  Lemma TableOK_weaken pf n m : m <= n -> TableOK pf n -> TableOK pf m.
+  Proof. intros L H j Hj. apply H. lia. Qed.
+
+  Lemma pref_loop_spec : forall rest done cur pf,
+    tl p = done ++ rest -> length pf = S (length done) -> TableOK pf (S (length done)) ->
+    cur = nth (length done) pf 0 ->
+    exists pf', pref_loop p rest cur pf = Some pf' /\ TableOK pf' (length p).
+  Proof.
+    induction rest as [|b rest IH]; intros done cur pf Et Lp Ht Ec.
+    - simpl. exists pf. split; [reflexivity|].
+      rewrite app_nil_r in Et. replace (length p) with (S (length done)); [exact Ht|].
+      destruct p; simpl in *; [subst; simpl|subst]; try reflexivity.
+      (* p = [] : tl = [] = done *) 
+      all: try (destruct done; simpl in *; congruence).
+    - simpl.
+      assert (Lt : length (tl p) = length done + S (length rest)).
+      { rewrite Et, app_length. reflexivity. }
+      assert (Lpp : length p = S (length (tl p))).
+      { destruct p; simpl in *; [lia | reflexivity]. }
+      assert (Hcur : Lps cur done).
+      { subst cur. specialize (Ht (length done) (Nat.lt_succ_diag_r _)).
+        rewrite Et, firstn_app, Nat.sub_diag, firstn_all in Ht. simpl in Ht.
+        now rewrite app_nil_r in Ht. }
+      assert (Lcur : cur <= length done) by (apply IsSuf_len, Hcur).
+      destruct (kstep_spec pf cur b done) as (c & Ek & Hc); auto; try lia.
+      { eapply TableOK_weaken; [|exact Ht]. lia. }
+      rewrite Ek.
+      apply (IH (done ++ [b]) c (pf ++ [c])).
+      + now rewrite <- app_assoc.
+      + rewrite !app_length. simpl. lia.
+      + intros j Hj. rewrite app_length in Hj. simpl in Hj.
+        destruct (Nat.eq_dec j (S (length done))) as [->|Nj].
+        * rewrite <- Lp, nth_middle. 
+          replace (firstn (length pf) (tl p)) with (done ++ [b]); [exact Hc|].
+          rewrite Et, Lp. replace (done ++ b :: rest) with ((done ++ [b]) ++ rest) by now rewrite <- app_assoc.
+          rewrite firstn_app. replace (S (length done) - length (done ++ [b])) with 0
+            by (rewrite app_length; simpl; lia).
+          simpl. rewrite app_nil_r.
+          rewrite firstn_all2; [reflexivity|]. rewrite app_length. simpl. lia.
+        * rewrite app_nth1 by lia. apply Ht. lia.
+      + rewrite app_length. simpl. rewrite Nat.add_1_r, <- Lp. now rewrite nth_middle.
+  Qed.
+
+  Lemma pref_func_spec : p <> [] -> exists pf, pref_func p = Some pf /\ TableOK pf (length p).
+  Proof.
+    intros Np. unfold pref_func. apply (pref_loop_spec (tl p) [] 0 [0]); auto.
+    intros j Hj. assert (j = 0) by (simpl in Hj; lia). subst j. simpl.
+    split; [apply IsSuf_0|]. intros k' Hk'. apply IsSuf_len in Hk'. simpl in Hk'. lia.
+  Qed.
+
+  (* an occurrence of p in t ending at index e *)
+  Definition EndsAt (t : bytes) (e : nat) : Prop :=
+    exists u w, t = u ++ p ++ w /\ e = length u + length p.
+
+  Lemma find_loop_spec pf t : p <> [] -> TableOK pf (length p) ->
+    forall s done cur, t = done ++ s -> Lps cur done -> cur < length p ->
+      (forall e', EndsAt t e' -> length done < e') ->
+      match find_loop pf p s (length done) cur with
+      | KEnd e => EndsAt t e /\ forall e', EndsAt t e' -> e <= e'
+      | KNone => forall e', ~ EndsAt t e'
+      | KFuel => False
+      end.
+  Proof.
+    intros Np Ht. induction s as [|b s IH]; intros done cur Et Hc Lc Hno.
+    - simpl. intros e' He'. specialize (Hno e' He'). destruct He' as (u & w & E & ->).
+      rewrite app_nil_r in Et. subst t. apply (f_equal (@length N)) in E.
+      rewrite !app_length in E. lia.
+    - simpl. destruct (kstep_spec pf cur b done) as (c & Ek & Hc'); auto.
+      { eapply TableOK_weaken; [|exact Ht]. lia. }
+      rewrite Ek. destruct (Nat.eqb_spec c (length p)) as [->|Nc].
+      + destruct Hc' as ((_ & u & E) & _). rewrite firstn_all in E. split.
+        * exists u, s. split.
+          -- rewrite Et. replace (done ++ b :: s) with ((done ++ [b]) ++ s) by now rewrite <- app_assoc.
+             rewrite E. now rewrite <- app_assoc.
+          -- apply (f_equal (@length N)) in E. rewrite !app_length in E. simpl in E. lia.
+        * intros e' He'. specialize (Hno e' He'). lia.
+      + assert (Lc' : c < length p) by (destruct Hc' as ((L & _) & _); lia).
+        replace (S (length done)) with (length (done ++ [b])) by (rewrite app_length; simpl; lia).
+        apply IH; auto.
+        * now rewrite <- app_assoc.
+        * intros e' He'. pose proof (Hno e' He') as H1. rewrite app_length. simpl.
+          destruct (Nat.eq_dec e' (S (length done))) as [->|]; [exfalso|lia].
+          destruct He' as (u & w & E & El).
+          assert (Ed : done ++ [b] = u ++ p).
+          { rewrite Et in E. replace (done ++ b :: s) with ((done ++ [b]) ++ s) in E by now rewrite <- app_assoc.
+            rewrite app_assoc in E. apply (f_equal (firstn (length (done ++ [b])))) in E.
+            rewrite firstn_app, Nat.sub_diag, firstn_all in E. simpl in E. rewrite app_nil_r in E.
+            rewrite E. rewrite firstn_app.
+            replace (length (done ++ [b]) - length (u ++ p)) with 0 by (rewrite !app_length; simpl; lia).
+            simpl. rewrite app_nil_r. apply firstn_all2. rewrite !app_length. simpl. lia. }
+          destruct Hc' as (_ & Hmax). specialize (Hmax (length p)).
+          assert (IsSuf (length p) (done ++ [b])).
+          { split; [lia|]. exists u. now rewrite firstn_all. }
+          apply Hmax in H. lia.
+  Qed.
+End Kmp.
+
+Theorem find_substring_leftmost s p : p <> [] ->
+  match find_substring s p with
+  | KEnd e => EndsAt p s e /\ forall e', EndsAt p s e' -> e <= e'
+  | KNone => forall e', ~ EndsAt p s e'
+  | KFuel => False
+  end.
+Proof.
+  intros Np. unfold find_substring.
+  destruct (pref_func_spec p Np) as (pf & -> & Ht).
+  apply (find_loop_spec p pf s Np Ht s [] 0); auto.
+  - split; [apply IsSuf_0|]. intros k' Hk'. apply IsSuf_len in Hk'. simpl in Hk'. lia.
+  - destruct p; [congruence | simpl; lia].
+  - intros e' (u & w & _ & ->). destruct p; [congruence | simpl; lia].
+Qed.
